@@ -11,6 +11,8 @@ stays true while tags (or action details) are APPENDED.  Here every edit the API
                                                object for any other well-formed list is `Good` again
   2. `good_add`, `good_remove`, `good_setSsid`, `good_setChannel`, `good_check`,
      `good_detail`, `good_freeDetail`          single steps
+     `good_any_tag`, `tags_any_history`        without side conditions: never a fault, always the frame
+                                               of the elements the tag bytes parse to
   3. `refStep`, `Admissible`, `retOk`, `good_step`   the reference interpreter on (elements, details),
                                                its side conditions, and the uniform single-step theorem
   4. `C03_full_history`, `C03_full_frame`      create + any admissible history = the Spec frame
@@ -146,6 +148,14 @@ theorem good_setSsid (k : GKind) (a : GArgs) (o : GObj) (es : List Elem) (det : 
   have hstep : stepTag o.tags (.setSsid d) = .ok (0, t') := by simp [stepTag, h1]
   exact ⟨{ o with tags := t' }, by simp [GObj.edit, hstep], h2, h3⟩
 
+/-- the same for a C string argument (`libwifi_set_*_ssid` takes `strlen` octets): the model's
+`setSsid` carries the octets before the terminating NUL -/
+theorem good_setSsid_cstr (k : GKind) (a : GArgs) (o : GObj) (es : List Elem) (det : Bytes) (g : Good k a o es det)
+    (ht : o.hasTags = true) (hne : noInnerEmpty es = true) (s : Bytes) (hd : (cstr s).length ≤ 255) :
+    ∃ o', o.edit (.tag (.setSsid (cstr s))) = .ok (0, o') ∧ o'.hasTags = true ∧
+      Good k a o' (es.eraseP (fun e => e.num.toNat == 0) ++ [⟨0, cstr s⟩]) det :=
+  good_setSsid k a o es det g ht hne (cstr s) hd
+
 /-- **set channel** the (first) DS parameter element is dropped and the new one appended -/
 theorem good_setChannel (k : GKind) (a : GArgs) (o : GObj) (es : List Elem) (det : Bytes) (g : Good k a o es det)
     (ht : o.hasTags = true) (hne : noInnerEmpty es = true) (c : UInt8) :
@@ -165,6 +175,17 @@ theorem good_check (k : GKind) (a : GArgs) (o : GObj) (es : List Elem) (det : By
   have := C05_check o.tags g.wf.inv (by rw [g.wf.parse]; exact hne) n
   rw [hc, g.wf.parse] at this
   injection this
+
+/-- **any tag edit, no side condition** whatever the operation and its arguments (over-long
+bodies, numbers beyond one octet, inner empty elements): the call does not fail or fault, and the
+object still serialises to the Spec frame of the elements its tag bytes parse to, with the matching
+length.  Outside the admissible region only WHICH elements these are is not fixed. -/
+theorem good_any_tag (k : GKind) (a : GArgs) (o : GObj) (es : List Elem) (det : Bytes) (g : Good k a o es det)
+    (ht : o.hasTags = true) (op : TagOp) :
+    ∃ r o', o.edit (.tag op) = .ok (r, o') ∧ o'.hasTags = true ∧ Good k a o' (parse o'.tags.params) det := by
+  obtain ⟨r, t', h1, hinv'⟩ := step_inv o.tags g.wf.inv op
+  obtain ⟨h2, h3⟩ := good_replace_tags k a o es det g ht t' hinv' _ rfl
+  exact ⟨r, { o with tags := t' }, by simp [GObj.edit, h1], h2, h3⟩
 
 /-- an action object never has elements -/
 theorem good_action_nil (k : GKind) (hk : isAction k = true) (a : GArgs) (o : GObj) (es : List Elem) (det : Bytes)
@@ -332,6 +353,20 @@ theorem good_history (k : GKind) (a : GArgs) (edits : List GEdit) (o : GObj) (st
     obtain ⟨r, o1, h1, h2, g1⟩ := good_step k a o st g e had.1
     obtain ⟨rs, o', h3, h4, g2⟩ := ih o1 (refStep st e) g1 had.2
     exact ⟨r :: rs, o', by simp [runEdits, h1, h3], ⟨h2, h4⟩, by simpa [refRun] using g2⟩
+
+/-- **any tag history, no side condition** on an object with tags every sequence of tag edits runs
+to the end, and the final object serialises to the Spec frame of the elements its tag bytes parse to -/
+theorem tags_any_history (k : GKind) (a : GArgs) (ops : List TagOp) (o : GObj) (es : List Elem) (det : Bytes)
+    (g : Good k a o es det) (ht : o.hasTags = true) :
+    ∃ rs o', runEdits o (ops.map .tag) = .ok (rs, o') ∧ o'.hasTags = true ∧ Good k a o' (parse o'.tags.params) det := by
+  induction ops generalizing o es with
+  | nil =>
+    refine ⟨[], o, rfl, ht, ?_⟩
+    rw [g.wf.parse]; exact g
+  | cons op ops ih =>
+    obtain ⟨r, o1, h1, ht1, g1⟩ := good_any_tag k a o es det g ht op
+    obtain ⟨rs, o', h2, ht2, g2⟩ := ih o1 _ g1 ht1
+    exact ⟨r :: rs, o', by simp [runEdits, h1, h2], ht2, g2⟩
 
 /-- the reference state of a freshly created object -/
 def st0 (k : GKind) (a : GArgs) : List Elem × Bytes := (Spec.initialElems (sk k) (sa a), [])
